@@ -46,6 +46,11 @@ let minus : (int * int, tables * int list) Hashtbl.t = Hashtbl.create 64
 (* the same two runs with the poll a restart makes at once (when blocks were pending at that step) *)
 let refp : (int * int, tables * int list) Hashtbl.t = Hashtbl.create 64
 let minusp : (int * int, tables * int list) Hashtbl.t = Hashtbl.create 64
+(* family "the chain moves while the tower is down": keyed (history, crash point): the uninterrupted run over the
+   chain that crash run ended with (and the same without the request that was in flight) *)
+let refx : (int * int, tables * int list) Hashtbl.t = Hashtbl.create 64
+let minusx : (int * int, tables * int list) Hashtbl.t = Hashtbl.create 64
+let down_cases = ref 0
 
 let cases = ref 0 and mon_fail = ref 0 and crash_points = ref 0
 let corr_fail = ref 0 and tr_ops = ref 0 and tr_stmts = ref 0 and crashdb_cmp = ref 0 and crashdb_skip = ref 0
@@ -258,6 +263,8 @@ let handle_cr lineno _line (r : reader) =
   Hashtbl.replace distinct case ();
   let rest = Array.to_list (Array.sub r.toks r.pos (Array.length r.toks - r.pos)) in
   let rf = Hashtbl.find refs h in
+  let xref = Hashtbl.find_opt refx (h, c) in
+  let rf = (match xref with Some (f, sd) -> incr down_cases; { rf with final = f; sends = sd } | None -> rf) in
   (* the database as the kill left it = the model's crash_at of the operation the crash point lies in *)
   (match split_at "CRASHDB" rest with
    | (_, []) -> ()
@@ -308,9 +315,13 @@ let handle_cr lineno _line (r : reader) =
     (* blocks mined and not yet polled when the request arrived: the restart polls them at once, so the two
        runs to compare with are the ones that poll right after this step *)
     let (rfinal, mfinal) =
+      (match xref, Hashtbl.find_opt minusx (h, c) with
+       | Some _, Some (b, _) -> (rf.final, b)
+       | Some _, None -> (rf.final, mfinal)
+       | None, _ ->
       (match Hashtbl.find_opt refp (h, step), Hashtbl.find_opt minusp (h, step) with
        | Some (a, _), Some (b, _) -> (a, b)
-       | _ -> (rf.final, mfinal)) in
+       | _ -> (rf.final, mfinal))) in
     let rf = { rf with final = rfinal } in
     let (cost, rloc, ruser) = (try List.assoc step rf.costs with Not_found -> (0, -1, -1)) in
     (* the record of the in-flight request itself may be absent, stored or responded to (no receipt was
@@ -339,18 +350,36 @@ let handle_cr lineno _line (r : reader) =
        uninterrupted run, and nothing given to the node there is missing here *)
     let partial = List.mem "partial=1" rest in
     let k = if partial then "replay-differs-after-partial-poll" else "replay-differs" in
-    if not (same_as rf.final && users_same rf.final) then fail k lineno case "final-tables-differ-from-uninterrupted-run"
-    else if not (multiset_incl rf.sends sends) then fail k lineno case "a-submission-of-the-uninterrupted-run-is-missing"
+    (* the chain moved while the tower was down: how often a penalty is re-submitted depends on how often its dispute
+       is seen (replays, reorgs); omission = never submitted *)
+    let sends_ok = if xref <> None then multiset_incl (List.sort_uniq compare rf.sends) (List.sort_uniq compare sends)
+                   else multiset_incl rf.sends sends in
+    if not (same_as rf.final && users_same rf.final) then begin
+      (* the one difference with a class of its own: everything is as in the uninterrupted run except that trackers of
+         that run were never created here, their appointments still being held (watched, not dropped) *)
+      let key = function l :: u :: _ -> (l, u) | _ -> (-1, -1) in
+      let mine = norm_trks final.trks and theirs = norm_trks rf.final.trks in
+      let missing = List.filter (fun t -> not (List.mem t mine)) theirs in
+      let extra = List.filter (fun t -> not (List.mem t theirs)) mine in
+      let held = List.map key final.apps in
+      if xref <> None && norm_apps final.apps = norm_apps rf.final.apps && users_same rf.final && extra = [] && missing <> []
+         && List.for_all (fun t -> List.mem (key t) held) missing
+      then fail "tracker-never-created-penalty-confirmed-while-down" lineno case
+             (Printf.sprintf "appointments-kept-without-tracker=%s" (String.concat "+" (List.map (fun t -> let (l, u) = key t in Printf.sprintf "%d.%d" l u) missing)))
+      else fail k lineno case "final-tables-differ-from-uninterrupted-run"
+    end
+    else if not sends_ok then fail k lineno case "a-submission-of-the-uninterrupted-run-is-missing"
   end
 
 let summary () =
   if !cases > 0 then
-    Printf.printf "SUMMARY kind=CR cases=%d histories=%d crash_points_in_histories=%d mon_fail=%d corr_fail=%d distinct_nontrivial=%d trace_ops=%d trace_durable_steps=%d crashdb_compared=%d crashdb_skipped=%d labels=%s micro_kinds=%s\n"
-      !cases (Hashtbl.length refs) !crash_points !mon_fail !corr_fail (Hashtbl.length distinct) !tr_ops !tr_stmts !crashdb_cmp !crashdb_skip
+    Printf.printf "SUMMARY kind=CR cases=%d histories=%d crash_points_in_histories=%d mon_fail=%d corr_fail=%d distinct_nontrivial=%d trace_ops=%d trace_durable_steps=%d crashdb_compared=%d crashdb_skipped=%d down_cases=%d labels=%s micro_kinds=%s\n"
+      !cases (Hashtbl.length refs) !crash_points !mon_fail !corr_fail (Hashtbl.length distinct) !tr_ops !tr_stmts !crashdb_cmp !crashdb_skip !down_cases
       (String.concat "," (List.sort compare (Hashtbl.fold (fun k v acc -> Printf.sprintf "%s:%d" k v :: acc) labels [])))
       (String.concat "," (List.sort compare (Hashtbl.fold (fun k v acc -> Printf.sprintf "%s:%d" k v :: acc) tr_kinds [])))
 
 let () =
   register "CRTR" (fun lineno line r -> try handle_tr lineno line r with Failure m -> corr lineno "parse" m);
   register "CRREF" handle_ref; register "CRMINUS" handle_minus; register "CR" handle_cr;
-  register "CRREFP" (handle_variant refp); register "CRMINUSP" (handle_variant minusp); register_summary summary
+  register "CRREFP" (handle_variant refp); register "CRMINUSP" (handle_variant minusp);
+  register "CRREFX" (handle_variant refx); register "CRMINUSX" (handle_variant minusx); register_summary summary
